@@ -109,17 +109,12 @@ func (s *Service) Running() bool { return s.isRunning.Load() }
 // If the service is running or is finished, Start returns the
 // appropriate sentinel error.
 func (s *Service) Start(ctx context.Context) error {
-	if s.isFinished.Load() {
-		return ErrServiceReturned
-	}
+	started := false
 
 	verifhook.At("srv.Service.Start.checked")
-	if s.isRunning.Swap(true) {
-		return ErrServiceAlreadyStarted
-	}
-
 	s.doStart.Do(func() {
-		defer s.isRunning.Store(true)
+		started = true
+		s.isRunning.Store(true)
 		defer s.isStarted.Store(true)
 		ec := &s.ec
 		ehSignal := make(chan struct{})
@@ -167,8 +162,8 @@ func (s *Service) Start(ctx context.Context) error {
 		go func() {
 			defer s.wg.Done()
 			defer close(mainSignal)
-			defer s.isRunning.Store(false)
 			defer s.isFinished.Store(true)
+			defer s.isRunning.Store(false)
 			if s.Cleanup != nil {
 				cleanup := s.Cleanup
 				// this catches a panic during shutdown
@@ -186,7 +181,14 @@ func (s *Service) Start(ctx context.Context) error {
 		verifhook.At("srv.Service.Start.launched")
 	})
 
-	return nil
+	switch {
+	case started:
+		return nil
+	case s.isFinished.Load():
+		return ErrServiceReturned
+	default:
+		return ErrServiceAlreadyStarted
+	}
 }
 
 // Close forceably shuts down the service, causing the background
